@@ -10,8 +10,7 @@ open BHS.Props.C18
 #print axioms C18_ban_elapsed
 #print axioms C18_readmitted
 #print axioms C18_target_never_exceeded
-#print axioms C18_target_slots
 #print axioms C18_target
+#print axioms C18_target_server
 #print axioms C18_target_replacement
-#print axioms C18_target_partial
-#print axioms C18_target_counterexample
+#print axioms C18_target_after_ban
